@@ -182,7 +182,8 @@ func newVC(eng *Engine, fn string) *VC {
 func (vc *VC) emit(s string) { vc.lines = append(vc.lines, s) }
 
 func (vc *VC) useSort(s Sort) {
-	if s == SInt || s == SBool {
+	s = Sort(s.elem())
+	if s == SInt || s == SBool || strings.HasPrefix(string(s), "(") {
 		return
 	}
 	vc.sorts[s] = true
@@ -452,12 +453,12 @@ func (vc *VC) memOf(st *State, s Sort) string {
 	}
 	vc.useSort(s)
 	if st.base == nil {
-		return vc.declRaw("M_"+string(s)+"_0", memSort(s))
+		return vc.declRaw("M_"+mangle(string(s))+"_0", memSort(s))
 	}
 	if m, ok := st.base.syms[s]; ok {
 		return m
 	}
-	m := vc.declRaw("M_"+string(s)+"_"+st.base.id, memSort(s))
+	m := vc.declRaw("M_"+mangle(string(s))+"_"+st.base.id, memSort(s))
 	st.base.syms[s] = m
 	if len(st.base.protected) > 0 {
 		pm := vc.memOf(st.base.prev, s)
@@ -497,7 +498,7 @@ func (vc *VC) storeComp(st *State, s Sort, ref, slot, val string) {
 }
 
 func (vc *VC) zeroRow(st *State, s Sort, ref string) {
-	vc.setRow(st, s, ref, "((as const (Array Int "+string(s)+")) "+zeroOf(s)+")")
+	vc.setRow(st, s, ref, "((as const (Array Int "+s.elem()+")) "+zeroOf(Sort(s.elem()))+")")
 }
 
 // rowOf returns a term for the whole row of ref in the current memory
@@ -545,6 +546,9 @@ func (vc *VC) typeFacts(l *Layouter, t types.Type, c []string, brk string) []str
 			_ = s
 			return nil
 		}
+	}
+	if _, isTP := t.(*types.TypeParam); isTP {
+		return nil
 	}
 	switch tt := t.Underlying().(type) {
 	case *types.Basic:
